@@ -217,6 +217,9 @@ def stepD (d : DS) (toks : List String) : DS × String :=
   if d.unmodelled then (d, "unmodelled") else
   match toks with
   | ["deadsock", _, _] => ({ d with unmodelled := true }, "unmodelled")
+  | ["shortsend", _, _] =>
+    -- the harness runs the real `send_all_datagrams` on a back-pressured socket; monitors only
+    (d, "shortsend-ok")
   | ["liveloop", _] =>
     -- the harness runs the REAL event loop against a fake receiver in real time; monitors only
     (d, "liveloop-ok")
